@@ -1,6 +1,6 @@
 (* How the look-ups of Spec.v on a dump [observe s] read the model state. *)
 From Coq Require Import Lia.
-From VF Require Export Sched.Spec.
+From VF Require Import Sched.Spec.
 From VF Require Import Sched.ProofsC01.
 Open Scope Z_scope.
 
